@@ -407,6 +407,15 @@ class StmtMixin:
                 st.cur[b.id] = self.mk("Scatter", (cb, vi, value), "via-view", site)
             child = b
             b = self.view_base(b)
+        # a store through the generic element of a container that was not unrolled (for x in box: x[m] = v) changes
+        # the objects the container holds: their contents are no longer known (never silently the old ones)
+        if child.op in ("IterElem", "Elem") and child.args and self.view_base(child) is None:
+            for c in self.roots(child.args[0]):
+                held = c.extra.get("tuple_fields") if (c.op == "Obj" and c.extra) else \
+                    (c.args if c.op in ("Tuple", "List") else None)
+                for f in held or ():
+                    if f.op not in ("Const", "Starred") and self.maybe_mutable(f):
+                        st.cur[f.id] = self.unknown("store-through-element", site, (self.res(f, st), idx, value))
 
     def maybe_mutable(self, n: Node) -> bool:
         if n.op in IMMUTABLE_OPS:
